@@ -46,7 +46,9 @@ ASSUMPTIONS = [
     "attributes (a stored but wrong summary made elsewhere is kept)",
 ]
 
-FEATS = ["deform", "area_um", "userdef1", "fl1_max", "frame"]
+FEATS = ["deform", "area_um", "userdef1", "fl1_max", "frame", "fl1_npeaks"]
+INT_FEATS = ("fl1_max", "frame", "fl1_npeaks")
+RAW_DTYPES = [None, "int32", "int64", "uint16"]
 MODES = ["append", "replace", "reset"]
 FINDING_MEAN = "C20-mean-nan-weight"
 FINDING_BASIN = "C20-mapped-basin-summaries"
@@ -63,8 +65,8 @@ def dec_vals(np, vals, feat):
     for t, k in vals:
         out.append([k / 8, np.nan, np.inf, -np.inf][t] if t else k / 8)
     arr = np.array(out, dtype=np.float64)
-    if feat in ("fl1_max", "frame"):
-        arr = arr.astype(np.uint32 if feat == "fl1_max" else np.uint64)
+    if feat in INT_FEATS:
+        arr = arr.astype(np.uint64 if feat == "frame" else np.uint32)
     return arr
 
 
@@ -74,8 +76,9 @@ def dec_vals(np, vals, feat):
 def gen_batch(rng, n, feat, style):
     vals = []
     for _ in range(n):
-        if feat in ("fl1_max", "frame"):
-            vals.append([0, 8 * rng.randint(0, 5000)])
+        if feat in INT_FEATS:
+            vals.append([0, 8 * rng.choice([rng.randint(0, 5000),
+                                            rng.randint(0, 6)])])
             continue
         r = rng.random()
         if style == "allnan" or r < {"clean": 0, "some": 0.25, "many": 0.7,
@@ -359,9 +362,35 @@ def compare_basin(np, model, out):
     return None
 
 
+def gen_raw_case(rng):
+    """a file whose dataset was written with plain h5py (no summaries, any
+    float/int/uint dtype), then copied (compress/repack path: rtdc_copy
+    completes the summaries), copied again, or appended to by the writer"""
+    feat = rng.choice(FEATS + list(INT_FEATS))
+    n = rng.choice([1, 2, 2, 3, 4, 7, 12])
+    style = rng.choice(["clean", "some", "many", "inf"])
+    dt = rng.randrange(len(RAW_DTYPES)) if feat in INT_FEATS else 0
+    ops = [[4, dt, gen_batch(rng, n, feat, style)]]
+    r = rng.random()
+    if r < 0.4:
+        ops.append([2, 0, []])
+    elif r < 0.6:
+        ops += [[2, 0, []], [2, 0, []]]
+    elif r < 0.9:
+        ops.append([0, 0, []])
+        for _ in range(rng.randint(1, 3)):
+            ops.append([1, 0, gen_batch(rng, rng.randint(1, 5), feat, style)])
+        if rng.random() < 0.6:
+            ops += [[3, rng.randint(1, 7), []], [2, 0, []]]
+    return dict(feat=feat, ops=ops, shape="raw")
+
+
 def gen_case(rng, thorough=False):
-    if rng.random() < 0.15:
+    r = rng.random()
+    if r < 0.15:
         return gen_join_case(rng)
+    if r < 0.35:
+        return gen_raw_case(rng)
     feat = rng.choice(FEATS + ["deform", "deform"])
     ops = []
     nsess = rng.choice([1, 1, 2, 2, 3])
@@ -394,8 +423,17 @@ def gen_case(rng, thorough=False):
             n = rng.choice([1, 1, 2, 3, 4, 7, 12] + ([40] if thorough else []))
             ops.append([1, 0, gen_batch(rng, n, feat, style)])
         first = False
-    if rng.random() < 0.2:
-        ops.append([rng.choice([2, 3]), rng.randint(1, 7), []])
+    # the end of the history: as written, copied, with summaries removed, or
+    # with summaries removed and then completed by one or two copies
+    r = rng.random()
+    if r < 0.12:
+        ops.append([2, 0, []])
+    elif r < 0.22:
+        ops.append([3, rng.randint(1, 7), []])
+    elif r < 0.45:
+        ops += [[3, rng.randint(1, 7), []], [2, 0, []]]
+    elif r < 0.5:
+        ops += [[3, rng.randint(1, 7), []], [2, 0, []], [2, 0, []]]
     return dict(feat=feat, ops=ops)
 
 
@@ -488,6 +526,20 @@ def run_impl(case, scratch, keep=False):
                 except ValueError:
                     if len(arr):
                         raise
+            elif tg == 4:
+                if hw is not None:
+                    hw.__exit__(None, None, None)
+                    hw = None
+                arr = dec_vals(np, data, feat)
+                if RAW_DTYPES[a]:
+                    arr = arr.astype(RAW_DTYPES[a])
+                hasnan = hasnan or any(t == 1 for t, _ in data)
+                with h5py.File(path, "w") as h5:
+                    h5.require_group("events").create_dataset(
+                        feat, data=arr, maxshape=(None,), chunks=True)
+                with RTDCWriter(path, mode="append") as hwr:
+                    hwr.store_metadata(gen.base_meta(with_fl=True,
+                                                     run_id="c20-rid"))
             else:
                 if hw is not None:
                     hw.__exit__(None, None, None)
@@ -669,6 +721,11 @@ def run(run):
     for c, (obs, fails, info) in zip(cases, results):
         run.record_case(c, info["nwrites"] >= 2 or info["hasnan"])
         run.count("feat:" + c["feat"])
+        tags = [t for t, _, _ in c["ops"]]
+        if c["feat"] in INT_FEATS and any(
+                tags[i] in (3, 4) and 2 in tags[i + 1:]
+                for i in range(len(tags))):
+            run.count("int-feature:summaries-completed-by-copy")
         if c.get("shape") == "join":
             run.count("shape:join (new writer appends the other inputs)")
         if obs and "basin_type" in obs:
@@ -676,7 +733,8 @@ def run(run):
         run.count("writes:%s" % min(info["nwrites"], 6))
         for t, a, data in c["ops"]:
             run.count(["op:open:" + MODES[a % 3], "op:write", "op:copy",
-                       "op:drop-attrs"][t] if t else "op:open:" + MODES[a])
+                       "op:drop-attrs", "op:raw-h5py"][t] if t
+                      else "op:open:" + MODES[a])
             if t == 1 and data and all(x == 1 for x, _ in data):
                 run.count("batch:all-nan")
         for key, desc in fails:
@@ -815,6 +873,39 @@ def _production_runs(run):
                 record(task, out, dict(case, task=task))
             except BaseException as e:
                 run.notes.append("%s failed: %r" % (task, e))
+        # a file written without the writer (plain h5py: integer and float
+        # scalar features, no stored summaries) through the same tasks
+        rawp = os.path.join(d, "raw%d.rtdc" % rep)
+        try:
+            import h5py
+            from dclab.rtdc_dataset.writer import RTDCWriter
+            m = rng.choice([2, 5, 12])
+            with h5py.File(rawp, "w") as h5:
+                ev = h5.require_group("events")
+                ev.create_dataset("frame", data=np.cumsum(
+                    [rng.randint(1, 4) for _ in range(m)]).astype(rng.choice(
+                        ["uint64", "int64", "int32"])))
+                ev.create_dataset("fl1_npeaks", data=np.array(
+                    [rng.randint(0, 3) for _ in range(m)], dtype=rng.choice(
+                        ["uint32", "uint16", "int64"])))
+                ev.create_dataset("deform", data=gen.inject_special(
+                    rng, gen.dyadic(rng, m, 0, 80), 0.3, 0))
+                ev.create_dataset("area_um", data=gen.dyadic(rng, m, 80, 800))
+                ev["area_um"].attrs["min"] = float(np.min(ev["area_um"][:]))
+            with RTDCWriter(rawp, mode="append") as hw:
+                hw.store_metadata(gen.base_meta(with_fl=True))
+            rcase = dict(kind="production", raw=True, n=m)
+            for task in ("compress", "repack", "condense"):
+                out = os.path.join(d, "raw-%s%d.rtdc" % (task, rep))
+                if task == "compress":
+                    cli.compress(path_in=rawp, path_out=out, force=True)
+                elif task == "repack":
+                    cli.repack(path_in=rawp, path_out=out)
+                else:
+                    cli.condense(path_in=rawp, path_out=out)
+                record("raw-h5py-" + task, out, dict(rcase, task=task))
+        except BaseException as e:
+            run.notes.append("raw file tasks failed: %r" % (e,))
         # export with a filter, in several chunks
         try:
             with dclab.new_dataset(src) as ds:
@@ -925,7 +1016,7 @@ def shrink(run, failure):
                     o = [1, 0, ops[i][2][:j] + ops[i][2][j + 1:]]
                     cands.append(ops[:i] + [o] + ops[i + 1:])
             for cand in cands:
-                if cand and cand[0][0] == 0 and target in keys(
+                if cand and cand[0][0] in (0, 4) and target in keys(
                         dict(case, ops=cand)):
                     ops = cand
                     changed = True
